@@ -27,6 +27,10 @@ mod matrix;
 mod ringbuffer;
 mod storage;
 
+#[cfg(pendulum_project_ntpd_rs_verif)]
+#[path = "/verif/hooks/statime_algo_root.rs"]
+pub mod verif_hook;
+
 use core::marker::PhantomData;
 use statime_base::{
     Clock, ClockError, ClockId, DirectedLinkId, Direction, Duration, LeapStatus, LinkId, TAI,
